@@ -5,6 +5,7 @@ Nothing here calls or mirrors the Lean model: the monitors restate the three pro
 implementation's output stream with exact integer / Fraction arithmetic.
 """
 import operator
+import re
 import os
 import subprocess
 import tempfile
@@ -232,7 +233,7 @@ def eval_expr(e, window, orc, ties=None):
 
 # ------------------------------------------------------------------------------------------ reading a run
 class Ev:
-    __slots__ = ("kind", "t", "id", "code", "orc", "out", "before", "after", "until", "idx", "extra")
+    __slots__ = ("kind", "t", "id", "code", "orc", "out", "before", "after", "until", "idx", "extra", "syn")
 
 
 def kvget(f, key, default=None):
@@ -266,7 +267,30 @@ def read_run(ops, outs):
             continue
         if o in ("bad-op", "no-scenario", "dead"):
             continue
+        if f[0] == "burst" and len(f) == 3:
+            # n arrivals, the clock advancing after each; the answers are run-length encoded, the state is printed once at
+            # the end: the synthetic arrivals carry the state before the burst, the last one the state after it
+            g = o.split()
+            n, stp = int(f[1]), int(f[2])
+            runs = re.findall(r"([a-z])(\d+)", g[1]) if len(g) >= 3 and g[0] == "burst" else []
+            answers = [{"p": "pass", "f": "fallback"}.get(c, "lost") for c, k in runs for _ in range(int(k))]
+            st = g[2:] if len(g) >= 3 else []
+            ok = len(answers) == n and st and st[0] in ("standby", "tripped", "recovering")
+            s0 = state
+            if ok:
+                state = st[0]
+            for j in range(n if ok else 1):
+                e = Ev()
+                e.kind, e.t, e.idx, e.id, e.code, e.orc, e.until, e.syn = "start", now + j * stp, i, None, None, [], None, True
+                e.out = answers[j] if ok else "lost"
+                e.before = s0
+                e.after = state if j == n - 1 else s0
+                e.extra = "" if ok and [x for x in st[1:] if not x.startswith("until=")] == [] else "unreadable:" + o
+                evs.append(e)
+            now += n * stp
+            continue
         e = Ev()
+        e.syn = False
         e.kind, e.t, e.idx, e.out, e.before = f[0], now, i, o, state
         e.id = f[1] if len(f) > 1 else None
         e.code = int(f[2]) if f[0] == "finish" and len(f) > 2 else None
@@ -317,7 +341,7 @@ def monitor_c05(ops, outs):
     for e in evs:
         if e.extra:
             bad.append("output: line %d unexpected output %r" % (e.idx, e.out))
-        if e.before != e.after and (e.before, e.after) not in ALLOWED_EDGES:
+        if e.before != e.after and (e.before, e.after) not in ALLOWED_EDGES and not e.syn:
             bad.append("edge: line %d state moved %s -> %s" % (e.idx, e.before, e.after))
         if e.kind == "start":
             ans = e.out.split()[0]
@@ -350,7 +374,7 @@ def recoveries(cfg, evs):
                     yield seg
                     seg = None
                 continue
-        if seg is None and e.kind == "start" and e.before == "tripped" and e.after == "recovering":
+        if seg is None and e.kind == "start" and e.before == "tripped" and e.after == "recovering" and not e.syn:
             seg = {"t0": e.t, "arrivals": [e], "end": None}
     if seg is not None:
         yield seg
@@ -395,7 +419,7 @@ def monitor_c12(ops, outs):
     for seg in recoveries(cfg, evs):
         if seg["end"] == "after":
             e = seg["arrivals"][-1]
-            if e.out.split()[0] != "pass" or e.after != "standby":
+            if e.out.split()[0] != "pass" or (e.after != "standby" and not e.syn):
                 bad.append("after-recovery: line %d first request after the recovery period (t=%d > %d+%d) answered %r in state %s"
                            % (e.idx, e.t, seg["t0"], rec, e.out.split()[0], e.after))
     # a re-trip shields the backend anew: the C05 shield clause
@@ -641,6 +665,25 @@ class Builder:
         u0 = t + self.fb + r.choice([0, 0, 1, self.fb // 7, rec // 3 if rec < DAY else 1000])
         self.goto(u0)
         u0 = self.now
+        if rec >= 2 and r.random() < (0.6 if rec >= DAY else 0.12):
+            # bulk arrivals spread over the ramp (a long recovery sees many requests), in a few chunks with idle gaps
+            self.probe(mood)
+            n = r.choice([200, 500, 1000, 2000, 5000]) if rec >= DAY else r.choice([50, 200, 500])
+            parts = r.randint(1, 4)
+            per = max(1, n // parts)
+            stp = max(1, rec // (n + parts * per // 3 + 2))
+            for _ in range(parts):
+                self.bulk(per, stp)
+                if self.now < u0 + rec and r.random() < 0.6:
+                    self.adv(min(u0 + rec - self.now, stp * r.randint(1, per // 3 + 1)))
+                    self.probe(mood)
+            if self.now < u0 + rec:
+                self.goto(u0 + rec)
+                self.bulk(r.randint(1, 3), 0)
+            self.adv(r.choice([1, 2, MS]))
+            self.probe("good", hold=0)
+            self.lines.append("effects")
+            return
         g = r.choice([4, 8, 16, 64])
         stp = max(1, rec // g)
         style = r.choice(["burst", "trickle", "gaps", "dense"])
@@ -668,6 +711,10 @@ class Builder:
         self.probe("good", hold=0)
         self.probe("good")
         self.lines.append("effects")
+
+    def bulk(self, n, step):
+        self.lines.append("burst %d %d" % (n, step))
+        self.now += n * step
 
     def drain(self):
         for i in list(self.fl):
